@@ -4409,6 +4409,9 @@ _index_form_to_dtype = _index_form_to_index = _form_to_layout_class = None
 
 
 def _asbuf(obj):
+    if isinstance(obj, (bytes, bytearray, memoryview)):
+        # (numpy.asarray(b"") is one empty string of itemsize 1, i.e. one zero byte)
+        return numpy.frombuffer(obj, np.uint8)
     try:
         tmp = numpy.asarray(obj)
     except Exception:
